@@ -8,7 +8,10 @@ _JUDGE = None
 
 
 def _work(cfg):
-    res = sched.explore(cfg, max_states=cfg.get("max_states", 60000))
+    if cfg.get("stateless"):
+        res = sched.explore_stateless(cfg, cfg["stateless"])
+    else:
+        res = sched.explore(cfg, max_states=cfg.get("max_states", 60000))
     out = dict(n=1, states=res["states"], transitions=res["transitions"], traces=res["terminals"], counters={}, violations=[], nontrivial=0)
     cnt = out["counters"]
     for k, v in res["stats"].items():
@@ -45,12 +48,12 @@ def replay_case(case, clauses, judge=None):
     cfg, path = case["cfg"], case.get("path")
     out = []
     if path is None:
-        res = sched.explore(cfg, max_states=cfg.get("max_states", 60000))
+        res = sched.explore_stateless(cfg, cfg["stateless"]) if cfg.get("stateless") else sched.explore(cfg, max_states=cfg.get("max_states", 60000))
         vs = res["violations"]
         if judge is not None:
             out += [viol(fp, what, dict(cfg=cfg, path=p)) for fp, what, p in judge(cfg, res)]
     else:
-        outcome, vs, run = sched.run_path(cfg, path)
+        outcome, vs, run = sched.run_path(cfg, path, default=bool(cfg.get("stateless")))
         if judge is not None:
             res = dict(outcomes={}, violations=vs, nonfinal=[(outcome, path)] if outcome[0] not in ("done", "pause") else [], terminals=1, final_outcome=outcome)
             out += [viol(fp, what, dict(cfg=cfg, path=p)) for fp, what, p in judge(cfg, res)]
